@@ -344,6 +344,13 @@ def corpus_C04(tier):
         if i % 5 == 1:
             inst["fault"] = dict(k=int(rng.integers(1, 30)), kind=corpus._pick(rng, ["nan", "pinf", "huge"]))
         out.append(inst)
+    # trust-region-increase exits under soft restarts with the budget expiring at every evaluation (few Dykstra sweeps provoke model increases)
+    bases = [dict(n=2, m=3, prob="nl", proj=["ball", "ball", "box"], restarts="soft", maxunsucc=3, rhoend=1e-3, user_params={"dykstra.max_iters": 10}),
+             dict(n=3, m=4, prob="nl", proj=["ball", "half", "ball"], restarts="soft", maxunsucc=3, rhoend=1e-3, user_params={"dykstra.max_iters": 5})]
+    if tier == "thorough":
+        bases += [dict(n=2, m=3, prob="nl", proj=["half", "ball", "box"], restarts="soft", maxunsucc=3, rhoend=1e-3, user_params={"dykstra.max_iters": 10}, bounds="both", bscale=1.5, x0place=["in", "in"]),
+                  dict(n=3, m=3, prob="nl", proj=["ball", "ball"], restarts="hard", maxunsucc=3, rhoend=1e-3, user_params={"dykstra.max_iters": 8})]
+    out += _sweeps(rng, bases, tier, 600000, maxfun=45, quick_steps=45)
     return out
 
 
@@ -467,6 +474,14 @@ def corpus_C18(tier):
                 up.update({"growing.reset_rho": True})
             inst["user_params"] = up
         out.append(inst)
+    # the radius cap: a minimiser ~1e13 away makes delta grow by very successful steps until it reaches 1e10
+    for j in range(4 if tier == "quick" else 40):
+        out.append(dict(id=800000 + j, seed=int(rng.integers(0, 2 ** 31 - 1)), n=int(rng.integers(1, 4)), m=3, prob="lin", x0far=float(corpus._pick(rng, [1e12, 1e13, 1e15])),
+                        rhobeg=1.0, rhoend=1e-6, maxfun=80, diag=True))
+    # several soft restarts that add points in steps of 2 up to a cap that is not a multiple of the step
+    for j in range(4 if tier == "quick" else 40):
+        out.append(dict(id=810000 + j, seed=int(rng.integers(0, 2 ** 31 - 1)), n=3, m=4, prob="nl", restarts="soft", maxunsucc=4, incnpt=3, rhoend=1e-1, maxfun=150, diag=True,
+                        user_params={"restarts.increase_npt_amt": 2}))
     return out
 
 
@@ -486,7 +501,7 @@ def corpus_C19(tier):
             inst.pop("restarts", None)
             inst.pop("incnpt", None)
         elif r == 3:
-            inst["npt"] = "2n+1"
+            inst["npt"] = corpus._pick(rng, ["2n+1", "full", "full"])   # 'full' = (n+1)(n+2)/2: the largest count with the deterministic initialisation
         elif r == 4 and not inst.get("scaling"):
             inst.update(reg="l1", prob="lin", timeout=200.0, maxfun=20)
         elif r == 5:
@@ -499,7 +514,7 @@ def corpus_C19(tier):
         up.pop("regression.momentum_extra_steps", None)
         inst["user_params"] = up
         a = dict(inst, id=3 * i + 1, rng_state=12345)
-        b = dict(inst, id=3 * i + 2, rng_state=987654321, ref=0)
-        c = dict(inst, id=3 * i + 3, rng_state=12345, ref=0)
+        b = dict(inst, id=3 * i + 2, rng_state=987654321, refid=3 * i + 1)
+        c = dict(inst, id=3 * i + 3, rng_state=12345, refid=3 * i + 1, warm=True)
         out += [a, b, c]
     return out
